@@ -168,7 +168,7 @@ def run_falsifier(ctx, check_types):
         job["preamble"] = None
         try:
             hit, skip = check_case(inputs, cmps, job, registry, check_types)
-        except ZeroDivisionError:
+        except (ZeroDivisionError, stages.TooCostly):
             ctx.count("skip:zero-division")
             continue
         except Exception as e:  # noqa
@@ -186,6 +186,9 @@ def run_falsifier(ctx, check_types):
     for kid, inputs, job in KNOWN_INPUTS:
         try:
             hit, _ = check_case(inputs, [], job, registry, False)
+        except stages.TooCostly:
+            ctx.count("skip:too-costly")
+            continue
         except Exception as e:  # noqa
             hit = {"kind": "pipeline-raises", "observed": f"{type(e).__name__}: {e}"}
         if hit:
@@ -209,6 +212,8 @@ def replay(ctx, hit):
     try:
         h, _ = check_case([tuple(x) for x in hit["input"]], cmps_from(hit["cmps"]), hit["job"], stages.make_registry(),
                           CHECK_TYPES)
+    except stages.TooCostly:
+        raise
     except Exception as e:  # noqa
         h = {"kind": "pipeline-raises", "observed": f"{type(e).__name__}: {e}"}
     return h
